@@ -287,6 +287,8 @@ def execute(case):
         addv('raised', {'op': 'B', 'exc': type(e).__name__, 'phase': 'measure'}, {'error': str(e)[-500:]}, [])
         return {'states': 1, 'transitions': 1, 'violations': V, 'key': ms_key(desc)}
     seqs = [case['only']] if case.get('only') is not None else [list(s) for s in itertools.product(OPS, repeat=L)]
+    if getattr(spec, 'response_has_memory', False):
+        seqs = [q for q in seqs if 'R' not in q]     # a further response() legitimately changes the (damped) scaling
     nops = 0
     nontrivial = 0
     for seq in seqs:
